@@ -318,11 +318,18 @@ class SymmetryTranslator:
                 continue
             used_inequalities = []
             fine = True
+            seen_unequal: set[AST] = set()  # variables of the unequal positions seen so far
             for pos, sides in enumerate(zip(*[x.atom.symbol.arguments for x in equality])):
                 # (lhs, rhs) = sides
                 # 1. all sides are equal
                 if len(set(sides)) == 1:
                     continue
+                # exchanging the atoms is no symmetry if a compared variable occurs at two different positions
+                pos_vars = set(chain(*[collect_ast(side, "Variable") for side in sides]))
+                if pos_vars & seen_unequal:
+                    fine = False
+                    break
+                seen_unequal.update(pos_vars)
                 # 2. all sides are inequal
                 for lhs, rhs in combinations(sides, 2):
                     res = SymmetryTranslator._unequal(lhs, rhs, inequalities)
